@@ -21,8 +21,6 @@ ASSUMPTIONS = [
     'names and constraint targets are str; the Sentinel objects FIRST/LAST are compared by identity (no __eq__) and are '
     'never used as item names; for the tween/deriver sorters the reserved names (INGRESS, MAIN, VIEW) are not item names',
     'is_nonstr_iter distinguishes a scalar hint from an iterable one (shape-pinned); iterables are lists/tuples of str',
-    'theorems about the operation sequence assume no constraint is an EMPTY iterable (see finding '
-    'C18-empty-alternatives-stale-requirement)',
     'configurator scenarios run with autocommit=True (re-adding a name replaces it instead of conflicting)',
 ]
 TRUSTED = [
@@ -34,8 +32,18 @@ TRUSTED = [
 TECHNIQUE = ('Coq proof (loop invariant of the Kahn-style emission loop over an insertion-ordered dictionary graph; '
              'representation invariant of add/remove) on a hand-written Gallina model + extracted-model differential '
              'correspondence; the declarative judge defined in Coq is run on the implementation\'s answers')
-LEVEL_TEXT = 'see NOTES.md'
-LEVEL_NOTE = 'see NOTES.md'
+LEVEL_TEXT = ('Machine-checked theorems, for every state of a TopologicalSorter (any add/remove sequence, any size): sorted() '
+              'never fails internally; a Sorted answer is a permutation of the currently declared names with their latest values '
+              'and respects every constraint arc whose ends are present (sentinels included); a cycle among present arcs is never '
+              'ordered and is reported; Unsatisfied errors are raised exactly for names none of whose own alternatives is present; '
+              'tweens and view derivers nest in list order (first outermost), an explicit tween list wins; the regenerated default '
+              'deriver declarations sort with secured_view first and rendered_view/mapped_view innermost. Model tied to the code by '
+              '21 shape pins, regenerated constants and a differential run; the Coq judge is run on the implementation\'s answers.')
+LEVEL_NOTE = ('Trusted: Coq kernel; hand-written model (validated by correspondence, shape-pinned); Python harness. Respects/unsatisfied '
+              'theorems are stated over the state fields (order, name2before, req_before); their reading over declaration lists is '
+              'proved for the names only (C18_names_of_ops) and otherwise validated by the judge run, not proved. The converse '
+              'pigeonhole half of cycle_iff_error is not proved (certificate form only). Empty iterables of alternatives are '
+              'excluded (candidate finding C18-empty-alternatives-stale-requirement).')
 ALLOWED_AXIOMS = ()
 PROOF_TIMEOUT = 1500
 
@@ -207,8 +215,14 @@ def gen_derivers(rng):
             r = rng.random()
             if r < 0.5:
                 return None
-            c = lambda: (rng.choice(DV_USER) if rng.random() < 0.4 else
-                         (rng.choice(DV_DEFAULT[:4] if after else DV_DEFAULT[3:]) if rng.random() < 0.75 else rng.choice(pool)))
+            def c():
+                q = rng.random()
+                if q < 0.05:
+                    return rng.choice(['VIEW', 'mapped_view']) if after else 'INGRESS'     # refused by add_view_deriver
+                if q < 0.42:
+                    return rng.choice(DV_USER)
+                return (rng.choice(DV_DEFAULT[:4] if after else DV_DEFAULT[3:]) if rng.random() < 0.75
+                        else rng.choice(pool))
             if r < 0.8:
                 return c()
             return [c() for _ in range(rng.choice([1, 2, 3]))]
@@ -581,44 +595,26 @@ def _empty_alt_steps(case):
 FINDING_EMPTY = 'C18-empty-alternatives-stale-requirement'
 
 
-def _known_open():
-    if 'open' not in _judge:
-        ids = set()
-        try:
-            with open(os.path.join(build.VERIF, 'known_findings.json')) as f:
-                ids = {e['id'] for e in json.load(f)['findings'] if e.get('property') == ID and e.get('status') == 'open'}
-        except Exception:
-            pass
-        _judge['open'] = ids
-    return _judge['open']
-
-
 def spec_holds(case, obs, spec):
     v = verdicts(case, obs)
     if v is None:
         return None
-    if all(v):
-        return True
-    # the only accepted excuse: every failing step lies at/after an add with an EMPTY iterable of alternatives
-    # (outside the property's quantifier: "a name, a sentinel or a list of alternatives"); reported as a candidate
-    # finding, and as a KNOWN-FINDING once the coordinator lists it as open.
-    if classify(case, obs, spec) == FINDING_EMPTY and FINDING_EMPTY not in _known_open():
-        return None
-    return False
+    return all(v)
+
+
+def stale_requirement(case, obs):
+    """does the deviation look exactly like finding C18-empty-alternatives-stale-requirement (repaired; label only)"""
+    v = verdicts(case, obs)
+    if not v or all(v) or _has_exc(obs) or case['k'] != 'sorter':
+        return False
+    stale = set(_empty_alt_steps(case))
+    bad = [i for i, ok in enumerate(v) if not ok]
+    return bool(bad) and all(i in stale for i in bad) and \
+        all(isinstance(obs[i], list) and obs[i] and obs[i][0] in (1, 2) for i in bad)
 
 
 def classify(case, obs, spec):
-    v = verdicts(case, obs)
-    if not v or all(v) or _has_exc(obs):
-        return None
-    if case['k'] != 'sorter':
-        return None
-    stale = set(_empty_alt_steps(case))
-    bad = [i for i, ok in enumerate(v) if not ok]
-    if bad and all(i in stale for i in bad):
-        # exactly that deviation: the failing steps report an unsatisfied dependency
-        if all(isinstance(obs[i], list) and obs[i] and obs[i][0] in (1, 2) for i in bad):
-            return FINDING_EMPTY
+    # both findings of this property are repaired (fixed-pending): no deviation is excused
     return None
 
 
@@ -675,6 +671,11 @@ def kinds(case, obs):
             out.append('alternatives-list')
         if _empty_alt_steps(case):
             out.append('empty-alternatives')
+            try:
+                if stale_requirement(case, obs):
+                    out.append('deviation:' + FINDING_EMPTY)
+            except Exception:
+                pass
     else:
         codes, fin = obs if (isinstance(obs, list) and len(obs) == 2) else ([], ['?'])
         out.append('%s-adds%d' % (k, len(case['adds'])))
